@@ -22,6 +22,8 @@ def check(ctx, rep):
     W.rule_M10(m, rep)
     W.rule_M11(m, rep)
     S.rule_A1(ctx, rep)
+    # Ok from an adapter means the socket took the datagram (else a flush 'succeeds' with nothing written)
+    S.rule_E1(ctx, rep)
     S.rule_lock_discipline(ctx, rep, 'D1')
     S.rule_D2(ctx, rep)
     S.rule_D3(ctx, rep, methods=('flush',))
